@@ -2,6 +2,8 @@ package dagsync
 
 import (
 	"context"
+	"github.com/libp2p/go-libp2p/core/peer"
+	"github.com/multiformats/go-multiaddr"
 
 	"github.com/ipfs/go-cid"
 	"github.com/ipld/go-ipld-prime/traversal/selector"
@@ -237,6 +239,11 @@ func VerifC01_EntriesSync() {
 	withHook := verif_Bool("blockHook")
 	v := newVSubEnts(chain, 0, 0, subSeg, entDepth, withHook)
 	start := verif_Choose("entriesStartPos", 0, n-1)
+	// the caller names the publisher by ID, or only by the /p2p component of its address
+	who := v.peer
+	if verif_Bool("publisherNamedOnlyInAddress") {
+		who = peer.AddrInfo{Addrs: []multiaddr.Multiaddr{vP2PAddr(v.peer.ID)}}
+	}
 	var err error
 	var want []cid.Cid
 	switch verif_Choose("variant", 0, 2) {
@@ -246,7 +253,7 @@ func VerifC01_EntriesSync() {
 		if scoped != 0 {
 			opts = append(opts, ScopedDepthLimit(scoped))
 		}
-		err = v.s.SyncEntries(context.Background(), v.peer, chain[start], opts...)
+		err = v.s.SyncEntries(context.Background(), who, chain[start], opts...)
 		limit := entDepth
 		if scoped != 0 {
 			limit = scoped
@@ -256,11 +263,11 @@ func VerifC01_EntriesSync() {
 		}
 		want = c01want(chain, start, cid.Undef, limit)
 	case 1:
-		err = v.s.SyncOneEntry(context.Background(), v.peer, chain[start])
+		err = v.s.SyncOneEntry(context.Background(), who, chain[start])
 		want = chain[start : start+1]
 		verif_Assert(len(v.sy.reqs) <= 1, "a single-entry sync is one request")
 	case 2:
-		err = v.s.SyncHAMTEntries(context.Background(), v.peer, chain[start])
+		err = v.s.SyncHAMTEntries(context.Background(), who, chain[start])
 		want = chain[start:]
 		verif_Assert(len(v.sy.reqs) <= 1, "an all-links sync is never segmented")
 	}
